@@ -17,13 +17,23 @@ Further case classes (same type JSON):
             which `_offset_` is evaluated several times: at the very start, before / after padding fields, constants,
             comments, regular fields, around `---`, repeatedly after the last variant of a union, twice in one
             expression; each evaluation must be the set of lengths of everything declared before that point.
+  * img   - IMAGES of type objects: the type under query is not the freshly built object but its image under a chain of
+            `pickle` round trips (every protocol), `copy.copy`, `copy.deepcopy` ("img": {"ops": [...], "warm": bool} - with
+            `warm` the original is queried first, so that the image is taken of an object whose caches are filled); the
+            original is queried again afterwards ("orig" of the outcome).  In pools ("img" of the pool) a definition is
+            replaced by its image when it is built (constructor mode: later definitions are built ON TOP of images), the
+            whole namespace model is imaged at once or type by type (DSDL mode), and script steps [[i], ["reimage", ops]]
+            replace definition i by its image between two queries.  A layout observable is a function of the type: it is
+            judged against the Specification on images exactly as on fresh objects.
 Oracle: an independent Python rendering of the Specification's layout rules into the node lists of suites/bls.py,
 evaluated with that suite's brute-force / sumset oracle.
 """
 from __future__ import annotations
 
+import copy
 import json
 import math
+import pickle
 import random
 import shutil
 import tempfile
@@ -710,7 +720,71 @@ def gen_pool(rng, prop):
             "pool": {"mode": "dsdl" if dsdl else "ctor", "style": style, "defs": defs, "probe": probe, "script": script}}
 
 
+# --- images of type objects (pickle / copy / deepcopy), before and after first queries ---------------------------------
+
+IMG_OPS = ["pickle", "pickle", "pickle", "pickle0", "pickle1", "pickle2", "pickle3", "pickle4", "pickle5", "copy", "copy", "deepcopy", "deepcopy"]
+
+
+def gen_img_ops(rng):
+    return [rng.choice(IMG_OPS) for _ in range(rng.choice([1, 1, 1, 2]))]
+
+
+def image(obj, ops):
+    """The image of a (graph of) type object(s) under a chain of pickle round trips / copies."""
+    for op in ops:
+        if op.startswith("pickle"):
+            obj = pickle.loads(pickle.dumps(obj, protocol=int(op[6:]) if op[6:] else pickle.DEFAULT_PROTOCOL))
+        elif op == "copy":
+            obj = copy.copy(obj)
+        elif op == "deepcopy":
+            obj = copy.deepcopy(obj)
+        else:
+            raise ValueError(op)
+    return obj
+
+
+def add_image(rng, case):
+    """Turn a plain case into an image case: the queries are answered by an image of the built type."""
+    if not case.get("qs") or "pool" in case:
+        return case
+    case["img"] = {"ops": gen_img_ops(rng), "warm": rng.random() < 0.4}
+    return case
+
+
+def add_pool_images(rng, case):
+    pool = case["pool"]
+    n = len(pool["defs"])
+    img: dict = {}
+    if pool["mode"] == "dsdl" and rng.random() < 0.5:
+        img["whole"] = gen_img_ops(rng)          # the namespace model as a whole (shared members stay shared)
+    else:
+        each = {str(i): gen_img_ops(rng) for i in range(n) if rng.random() < 0.6}
+        if not each:
+            each = {str(rng.randrange(n)): gen_img_ops(rng)}
+        img["each"] = each                       # type by type (constructor mode: when the definition is built)
+    pool["img"] = img
+    script = list(pool["script"])
+    for _ in range(rng.choice([0, 1, 1, 2])):    # a definition replaced by its image between two queries
+        script.insert(rng.randint(1, len(script)) if script else 0, [[rng.randrange(n)], ["reimage", gen_img_ops(rng)]])
+    pool["script"] = script
+    return case
+
+
+IMG_SHARE = {"C08": 0.22, "C02": 0.15}
+IMG_POOL_SHARE = 0.45
+
+
 def gen_case(rng, prop):
+    c = gen_case0(rng, prop)
+    if "pool" in c:
+        if rng.random() < IMG_POOL_SHARE:
+            add_pool_images(rng, c)
+    elif rng.random() < IMG_SHARE.get(prop, 0.1):
+        add_image(rng, c)
+    return c
+
+
+def gen_case0(rng, prop):
     x = rng.random()
     if x < 0.06:
         c = gen_lookalike_warm(rng, prop)
@@ -1032,13 +1106,14 @@ def pool_impl(suite, pydsdl, pool) -> list:
     defs = pool["defs"]
     rdefs = [resolve_refs(defs, x) for x in defs]
     tail: list = []
+    pimg = pool.get("img") or {}
     if pool["mode"] == "ctor":
         names = _Names()
         built: dict = {}
 
         def get(i):
             if i not in built:
-                built[i] = build_impl(pydsdl, defs[i], names, get)
+                built[i] = _image_or_self(build_impl(pydsdl, defs[i], names, get), pimg.get("each", {}).get(str(i)))
             return built[i]
     else:
         names = _Names()
@@ -1064,10 +1139,23 @@ def pool_impl(suite, pydsdl, pool) -> list:
         finally:
             shutil.rmtree(d, ignore_errors=True)
 
+        if pimg.get("whole"):
+            types = _image_or_self(types, pimg["whole"])
+        for k_, ops in sorted(pimg.get("each", {}).items()):
+            types["D%s" % k_] = _image_or_self(types["D%s" % k_], ops)
+        built = types
+
         def get(i):
             return types["D%d" % i]
     out: list = []
     for pth, q in pool["script"]:
+        if q[0] == "reimage":  # no answer: definition pth[0] is replaced by its image from here on
+            try:
+                key = pth[0] if pool["mode"] == "ctor" else "D%d" % pth[0]
+                built[key] = _image_or_self(get(pth[0]), q[1])
+            except Exception:
+                pass
+            continue
         try:
             obj = walk_impl(get(pth[0]), rdefs[pth[0]], pth[1:])
             out.append(suite.ask(pydsdl, obj, None, q, {}))
@@ -1078,10 +1166,22 @@ def pool_impl(suite, pydsdl, pool) -> list:
     return out + tail
 
 
+def _image_or_self(obj, ops):
+    """The image of `obj`; the object itself when there is nothing to do or the image cannot be made (that a model can be
+    pickled / copied at all is not the subject of the layout properties)."""
+    if not ops:
+        return obj
+    try:
+        return image(obj, ops)
+    except Exception:
+        return obj
+
+
 def pool_steps(pool) -> list:
     """(description, stripped resolved type, query) of every answer pool_impl gives, in the same order."""
     rdefs = [resolve_refs(pool["defs"], x) for x in pool["defs"]]
-    steps = [("definition %d member path %s" % (pth[0], pth[1:]), strip(walk(rdefs[pth[0]], pth[1:])), q) for pth, q in pool["script"]]
+    steps = [("definition %d member path %s" % (pth[0], pth[1:]), strip(walk(rdefs[pth[0]], pth[1:])), q) for pth, q in pool["script"]
+             if q[0] != "reimage"]
     for i in pool["probe"]:
         st = strip(rdefs[i])
         steps.append(("`_offset_` at the end of definition %d" % i, st, ["intrinsic", len(section_of(st)[1])]))
@@ -1101,8 +1201,12 @@ def pool_oracle(pool, impl) -> typing.Optional[str]:
     for n, ((what, st, q), a) in enumerate(zip(steps, sout)):
         known, exp = spec_answer(st, q, ctxs.setdefault(json.dumps(st), {}))
         if known and a != exp:
-            return "history step %d (query '%s' %s on %s, %s, after %d earlier steps on types sharing sub-objects): implementation answered %s, the Specification's layout gives %s" % (
-                n, q[0], q[1:], what, B._short(st), n, B._short(a), B._short(exp))
+            imgs = ""
+            if pool.get("img") or any(q_[0] == "reimage" for _, q_ in pool["script"]):
+                imgs = "; definitions replaced by their pickle / copy images: %s, reimage steps: %s" % (
+                    json.dumps(pool.get("img") or {}, sort_keys=True), [[p_[0], q_[1]] for p_, q_ in pool["script"] if q_[0] == "reimage"])
+            return "history step %d (query '%s' %s on %s, %s, after %d earlier steps on types sharing sub-objects%s): implementation answered %s, the Specification's layout gives %s" % (
+                n, q[0], q[1:], what, B._short(st), n, imgs, B._short(a), B._short(exp))
     return None
 
 
@@ -1110,6 +1214,9 @@ def parse_set(s: str) -> typing.List[int]:
     s = s.strip()
     assert s.startswith("{") and s.endswith("}"), s
     return sorted(int(x) for x in s[1:-1].split(",") if x.strip())
+
+
+TEXT_QUERIES = ("intrinsic", "prog", "svc_intrinsic")  # answered by a definition rendered as DSDL text, not by the built object
 
 
 class LayoutSuite(common.Suite):
@@ -1194,12 +1301,33 @@ class LayoutSuite(common.Suite):
                 intr_res = intrinsic_impl(pydsdl, t, intr)
             except Exception as ex:
                 intr_res = {"error": "%s: %s" % (type(ex).__name__, str(ex)[:300])}
-        for q in case["qs"]:
+
+        def answers(obj, qs):
+            o: list = []
+            for q in qs:
+                try:
+                    o.append(self.ask(pydsdl, obj, t, q, intr_res))
+                except Exception as ex:
+                    o.append("exc:%s" % type(ex).__name__)
+            return o
+
+        img = case.get("img")
+        ty0 = ty
+        soft_img = None
+        if img:
+            direct = [q for q in case["qs"] if q[0] not in TEXT_QUERIES]
+            if img.get("warm"):
+                answers(ty0, direct)
             try:
-                out.append(self.ask(pydsdl, ty, t, q, intr_res))
-            except Exception as ex:
-                out.append("exc:%s" % type(ex).__name__)
+                ty = image(ty0, img["ops"])
+            except Exception as ex:  # not a layout matter: the original is queried instead
+                soft_img = "failed:%s" % type(ex).__name__
+        out = answers(ty, case["qs"])
         res = {"res": "ok", "out": out}
+        if img:
+            res["orig"] = answers(ty0, direct)  # the original, after its image was taken and queried
+            if soft_img:
+                res["soft_img"] = soft_img
         if "pool" in case:
             try:
                 res["sout"] = pool_impl(self, pydsdl, case["pool"])
@@ -1316,7 +1444,18 @@ class LayoutSuite(common.Suite):
                 continue
             known, exp = spec_answer(st, q, ctx)
             if known and a != exp:
-                return "query %s on %s: implementation answered %s, the Specification's layout gives %s" % (q, B._short(st), B._short(a), B._short(exp))
+                return "query %s on %s%s: implementation answered %s, the Specification's layout gives %s" % (
+                    q, B._short(st), _img_text(case), B._short(a), B._short(exp))
+        if case.get("img"):
+            direct = [q for q in case["qs"] if q[0] not in TEXT_QUERIES]
+            orig = impl.get("orig")
+            if not isinstance(orig, list) or len(orig) != len(direct):
+                return "implementation outcome has no answers of the original object of an image case"
+            for q, a in zip(direct, orig):
+                known, exp = spec_answer(st, q, ctx)
+                if known and a != exp:
+                    return "query %s on %s (the ORIGINAL object, after its image under %s was taken and queried): implementation answered %s, the Specification's layout gives %s" % (
+                        q, B._short(st), "+".join(case["img"]["ops"]), B._short(a), B._short(exp))
         if "pool" in case:
             return pool_oracle(case["pool"], impl)
         return None
@@ -1336,6 +1475,14 @@ class LayoutSuite(common.Suite):
         if "pool" in case:
             pool = case["pool"]
             sc = pool["script"]
+            pimg = pool.get("img")
+            if pimg:
+                yield {"ty": t, "qs": qs, "pool": {k: v for k, v in pool.items() if k != "img"}}
+                for k_ in sorted(pimg.get("each", {})):
+                    yield {"ty": t, "qs": qs, "pool": dict(pool, img=dict(pimg, each={a: b for a, b in pimg["each"].items() if a != k_}))}
+                for k_, ops in sorted(pimg.get("each", {}).items()):
+                    if len(ops) > 1:
+                        yield {"ty": t, "qs": qs, "pool": dict(pool, img=dict(pimg, each=dict(pimg["each"], **{k_: ops[:1]})))}
             for i in range(len(sc)):
                 if len(sc) > 1:
                     yield {"ty": t, "qs": qs, "pool": dict(pool, script=sc[:i] + sc[i + 1:])}
@@ -1346,9 +1493,24 @@ class LayoutSuite(common.Suite):
                 defs2 = pool["defs"][:last]
                 yield {"ty": resolve_refs(defs2, defs2[-1]), "qs": qs, "pool": dict(pool, defs=defs2)}
             return
+        extra = {k: case[k] for k in ("img",) if k in case}
+        if "img" in case:
+            img = case["img"]
+            yield {k: v for k, v in case.items() if k not in ("img", "id")}
+            if img.get("warm"):
+                yield dict(case, img=dict(img, warm=False))
+            if len(img["ops"]) > 1:
+                for j in range(len(img["ops"])):
+                    yield dict(case, img=dict(img, ops=img["ops"][:j] + img["ops"][j + 1:]))
         for i in range(len(qs)):
             if len(qs) > 1:
-                yield {"ty": t, "qs": qs[:i] + qs[i + 1:]}
+                yield dict({"ty": t, "qs": qs[:i] + qs[i + 1:]}, **extra)
+        for t2 in (shrink_ty(t) if extra else []):
+            c = make_queries_for_shrunk(t2, qs)
+            if c is not None:
+                yield dict(c, **extra)
+        if extra:
+            return
         for i, q in enumerate(qs):
             if q[0] != "prog":
                 continue
@@ -1380,11 +1542,46 @@ class LayoutSuite(common.Suite):
         yield "depth:%d" % tdepth(case["ty"])
         if "warm" in case:
             yield "class:lookalike-warm"
+        if case.get("img"):
+            yield from img_features(case["img"])
         if "pool" in case:
             yield from pool_features(case["pool"])
+            if case["pool"].get("img"):
+                yield from img_features(case["pool"]["img"], case["pool"])
 
     def nontrivial(self, case, impl):
         return impl.get("res") == "ok" and len(case["qs"]) > 0 and tdepth(case["ty"]) >= 1
+
+
+def _img_text(case) -> str:
+    img = case.get("img")
+    if not img:
+        return ""
+    return " (asked of the IMAGE of the built type under %s%s)" % ("+".join(img["ops"]), ", original queried before" if img.get("warm") else "")
+
+
+def img_features(img, pool=None):
+    def ops_f(ops):
+        for op in ops:
+            yield "img:op=" + ("pickle" if op.startswith("pickle") else op)
+        if len(ops) > 1:
+            yield "img:chain"
+    if pool is None:
+        yield "class:image"
+        yield "img:original-queried-first" if img.get("warm") else "img:original-untouched"
+        yield from ops_f(img["ops"])
+        return
+    yield "class:pool-images"
+    if img.get("whole"):
+        yield "img:pool-whole-model"
+        yield from ops_f(img["whole"])
+    for _, ops in sorted(img.get("each", {}).items()):
+        yield "img:pool-definition-imaged-" + ("when-built" if pool["mode"] == "ctor" else "after-reading")
+        yield from ops_f(ops)
+    for _, q in pool["script"]:
+        if q[0] == "reimage":
+            yield "img:pool-reimage-between-queries"
+            yield from ops_f(q[1])
 
 
 def prog_features(t, q):
